@@ -43,6 +43,30 @@ def all_digraphs(n, names, selfloops=True):
         yield G
 
 
+def on_routes(G):
+    """every edge lies on some route from a natural source to a natural sink"""
+    S = [v for v in G if G.in_degree(v) == 0]
+    T = [v for v in G if G.out_degree(v) == 0]
+    if not S or not T:
+        return False
+    fw = set(S).union(*[nx.descendants(G, v) for v in S])
+    bw = set(T).union(*[nx.ancestors(G, v) for v in T])
+    return all(u in fw and v in bw for u, v in G.edges())
+
+
+def routed_cyclic_digraphs(n, names, stride=1, offset=0):
+    """digraphs with a cycle whose every edge lies on a natural source-to-sink walk (mask-strided for n=4)"""
+    pairs = [(i, j) for i in range(n) for j in range(n)]
+    for mask in range(1 + offset, 1 << len(pairs), stride):
+        G = nx.DiGraph()
+        for b, (i, j) in enumerate(pairs):
+            if mask >> b & 1:
+                G.add_edge(names[i], names[j])
+        if G.number_of_nodes() < n or not nx.is_weakly_connected(G) or nx.is_directed_acyclic_graph(G) or not on_routes(G):
+            continue
+        yield G
+
+
 def pick_extra(G, names, want_start=True, want_end=True):
     """deterministic choice of one additional start (preferably a node WITH incoming edges) and/or one additional end such that as many
     edges as possible lie on some start-to-end route (ties: first in name order)"""
@@ -161,6 +185,8 @@ def variants(model, tier):
     V += [dict(tag="ignore1", nign=1), dict(tag="ignore2", nign=2), dict(tag="node", origin="node"), dict(tag="node+ignore1", origin="node", nign=1)]
     if not cover:
         V += [dict(tag="ignore1+missing", nign=1, missing=True), dict(tag="node+missing", origin="node", missing=True), dict(tag="values=arbitrary", arbitrary=True)]
+    if model in FD:
+        V += [dict(tag="ignore1+perturbed", nign=1, perturb=True), dict(tag="node+ignore1+perturbed", origin="node", nign=1, perturb=True)]
     if model not in DAG_MIN + CYC_MIN:
         V += [dict(tag="allow_empty", opts=empty)]
         if model not in NO_STARTS and model not in ("MinFlowDecomp", "MinFlowDecompCycles"):
@@ -186,7 +212,7 @@ def variants(model, tier):
     return V
 
 
-def make_case(model, G, names, var, k, wt, salt, npo=None):
+def make_case(model, G, names, var, k, wt, salt, npo=None, fscale=None, count=2):
     """concrete JSON-able case from a topology and an abstract variant; None if the variant makes no sense on this topology"""
     cyc = is_cyclic_model(model)
     starts, ends = pick_extra(G, names, bool(var.get("starts")), bool(var.get("ends")))
@@ -200,14 +226,16 @@ def make_case(model, G, names, var, k, wt, salt, npo=None):
     if var.get("arbitrary") or model in COVERS:
         ef, nf = arbitrary_values(G, salt)
     else:
-        pool = conserving_values(G, starts, ends, cyc)
+        pool = conserving_values(G, starts, ends, cyc, count)
         if not pool:
             ef, nf = arbitrary_values(G, salt)
         else:
             ef, nf = pool[salt % len(pool)]
-    if wt == "float" and salt % 2:
-        ef = {e: v * 0.5 for e, v in ef.items()}
-        nf = {v: x * 0.5 for v, x in nf.items()}
+    if fscale is None:
+        fscale = 0.5 if salt % 2 else 1
+    if wt == "float" and fscale != 1:
+        ef = {e: v * fscale for e, v in ef.items()}
+        nf = {v: x * fscale for v, x in nf.items()}
     E = sorted(G.edges())
     Vn = sorted(G.nodes())
     nign = var.get("nign", 0)
@@ -216,6 +244,8 @@ def make_case(model, G, names, var, k, wt, salt, npo=None):
         ignore = [list(x) for x in sorted(set(map(tuple, ignore)))]
         if len(ignore) >= len(E) and nign:
             return None                     # everything ignored: outside every model's domain
+        if var.get("perturb") and ignore:
+            ef[tuple(ignore[0])] += 1       # the ignored value is wrong on purpose (breaks conservation)
         if var.get("missing") and ignore:
             ef[tuple(ignore[0])] = None
         cons = [[list(e) for e in _constraint_edges(G, salt, cyc)]] if var.get("cons") else []
@@ -223,6 +253,8 @@ def make_case(model, G, names, var, k, wt, salt, npo=None):
         ignore = sorted(set(Vn[(salt + 2 * j) % len(Vn)] for j in range(nign)))
         if len(ignore) >= len(Vn) and nign:
             return None
+        if var.get("perturb") and ignore:
+            nf[ignore[0]] += 1
         if var.get("missing"):
             nf[Vn[(salt + 1) % len(Vn)]] = None
         cons = [_constraint_nodes(G, salt)] if var.get("cons") else []
@@ -395,6 +427,11 @@ def _topologies(tier):
                 if n == 4 and gi % (1499 if names is graphs.NAMES1 else 5003) != 7:
                     continue
                 yield "cyc", names, G
+        if names is graphs.NAMES1:
+            for G in routed_cyclic_digraphs(3, names):
+                yield "cyc", names, G
+            for gi, G in enumerate(routed_cyclic_digraphs(4, names, stride=(257 if q else 37), offset=5)):
+                yield "cyc", names, G
 
 
 def cases(tier):
@@ -415,7 +452,7 @@ def cases(tier):
                 seen.add(var["tag"])
                 salt = ti + vi
                 wts = ("int",) if model in COVERS else (("int", "float")[salt % 2],) if q else ("int", "float")
-                ks = (None,) if model in DAG_MIN + CYC_MIN else pick_k(G, var, names, kind == "cyc", salt, tier)
+                ks = (None,) if model in DAG_MIN + CYC_MIN else pick_k(G, var, names, kind == "cyc", ((ti * 2654435761 + vi * 40503 + mi * 977) >> 7), tier)
                 for wt in wts:
                     for k in ks:
                         c = make_case(model, G, names, var, k, wt, salt)
